@@ -35,7 +35,7 @@ func TestVerifC05Torn(t *testing.T) {
 	defer r.Flush()
 	depth := 3
 	if ev.Thorough() {
-		depth = 4
+		depth = 5
 	}
 	r.Rule(fmt.Sprintf("every history of length <=%d over {Put(a), Put(b), Put(a again, new value), Delete(a), Delete(b)} on the real DiskStorage/bolt file, with bolt's page writes and fdatasyncs logged (hooks injected into bolt through -overlay); for EVERY prefix of the write/sync log and EVERY subset of the writes after the last sync dropped (multi-page writes additionally torn after their first page), the file image is materialised and reopened with the real NewDiskStorage; oracle: it opens, load() succeeds and the content equals the state after a prefix of the operation sequence that includes every operation that had returned (acknowledged) before the crash point", depth))
 	dir := t.TempDir()
